@@ -313,9 +313,10 @@ type vShape struct {
 	ED   int    `json:"ed,omitempty"`   // encrypted-data length variant
 	Fee  uint64 `json:"fee,omitempty"`  // per-hop fee (AmtToForward differs per hop)
 	TL   int    `json:"tl,omitempty"`   // time lock / channel id boundary variant
-	// XK: first hop carries a custom record with a key >= 2^63 (probe only:
-	// the SQL schema refuses it, see notes/C16.md)
-	XK bool `json:"xk,omitempty"`
+	// XK: a custom record with a key >= 2^63 (directed finding case C16-F4
+	// only: the SQL store casts keys to int64 and its CHECK refuses them):
+	// 1 = hop custom record on hop 0, 2 = first-hop wire custom record
+	XK int `json:"xk,omitempty"`
 }
 
 var (
@@ -410,7 +411,7 @@ func vBuildRoute(a vAtt) route.Route {
 		}
 		hops[i] = hop
 	}
-	if sh.XK {
+	if sh.XK == 1 {
 		hops[0].CustomRecords = map[uint64][]byte{1<<63 + 5: {1}}
 	}
 	fin := hops[n-1]
@@ -446,6 +447,10 @@ func vBuildRoute(a vAtt) route.Route {
 		rt.FirstHopAmount = tlv.NewRecordT[tlv.TlvType0](
 			tlv.NewBigSizeT(lnwire.MilliSatoshi(a.Amt + 77)),
 		)
+	}
+	if sh.XK == 2 {
+		rt.FirstHopWireCustomRecords = lnwire.CustomRecords{
+			1<<63 + 5: {1}}
 	}
 	if sh.FH&2 != 0 {
 		rt.FirstHopWireCustomRecords = lnwire.CustomRecords(
@@ -521,12 +526,18 @@ func vApply(db DB, ci int, nh int, op []any) vResp {
 	switch op[0].(string) {
 	case "init":
 		h := vHash(ci, gi(1))
-		err = db.InitPayment(ctx, h, &PaymentCreationInfo{
+		info := &PaymentCreationInfo{
 			PaymentIdentifier: h,
 			Value:             lnwire.MilliSatoshi(gu(2)),
 			CreationTime:      time.Unix(1700000000, 0),
 			PaymentRequest:    []byte("verif"),
-		})
+		}
+		if len(op) > 3 && op[3].(bool) {
+			// C16-F4 directed case: first-hop custom record, key >= 2^63
+			info.FirstHopCustomRecords = lnwire.CustomRecords{
+				1<<63 + 5: {1}}
+		}
+		err = db.InitPayment(ctx, h, info)
 	case "reg":
 		h := vHash(ci, gi(1))
 		a := vAtt{
@@ -1115,15 +1126,21 @@ func TestVerifPayments(t *testing.T) {
 			"query": vQuery(st, ci)})
 		ci++
 	}
-	// probe (recorded, not judged): a custom record key >= 2^63
+	// directed finding case C16-F4 (judged by props/c16.py under its own
+	// signature): a custom record key >= 2^63 at the three sites where the
+	// SQL store casts record keys to int64
 	{
+		mppReg := func(h int, id uint64, xk int) []any {
+			return []any{"reg", h, id, uint64(400), true, uint64(1),
+				uint64(1000), false, uint64(0), &vShape{N: 2, XK: xk}}
+		}
 		var steps []vStep
-		for _, op := range [][]any{{"init", 0, uint64(1000)},
-			{"reg", 0, uint64(0), uint64(400), true, uint64(1), uint64(1000),
-				false, uint64(0), &vShape{N: 2, XK: true}},
-			{"fetch", 0}} {
+		for _, op := range [][]any{
+			{"init", 0, uint64(1000)}, mppReg(0, 0, 1), {"fetch", 0},
+			{"init", 1, uint64(1000)}, mppReg(1, 1, 2), {"fetch", 1},
+			{"init", 2, uint64(1000), true}, {"fetch", 2}} {
 
-			steps = append(steps, vExec(st, ci, 1, op))
+			steps = append(steps, vExec(st, ci, 3, op))
 		}
 		out.emit(map[string]any{"case": ci, "mode": "probe",
 			"probe": "custom-record-key>=2^63", "steps": steps})
